@@ -375,3 +375,18 @@
 ;@ghost wdb.counter (Array Str Int)
 ;@ghost wal.derivedupto (Array Str Int)
 ;@ghost wal.signedupto (Array Str Int)
+
+;@module wfees sums
+; Input fees as the wallet computes them (wallet.feesForProofs): the active
+; keyset's ppk for proofs of the active keyset, the inactive keyset's ppk for
+; known inactive keysets, nothing for unknown ids.
+(define-unfold wfee.sum ((a (Array Int cashu.Proof)) (aid Str) (appk Int) (ik (Array Str Bool)) (iv (Array Str crypto.WalletKeyset)) (n Int)) Int (ite (<= n 0) 0 (+ (wfee.sum a aid appk ik iv (- n 1)) (ite (= aid (cashu.Proof.Id (select a (- n 1)))) (nn appk) (ite (select ik (cashu.Proof.Id (select a (- n 1)))) (nn (crypto.WalletKeyset.InputFeePpk (select iv (cashu.Proof.Id (select a (- n 1)))))) 0)))))
+;@appendsum cashu.Proof wfee.sum
+;@module wfees.ax
+;@attach-proved wfees
+(assert (forall ((a (Array Int cashu.Proof)) (aid Str) (appk Int) (ik (Array Str Bool)) (iv (Array Str crypto.WalletKeyset)) (n Int)) (! (>= (wfee.sum a aid appk ik iv n) 0) :pattern ((wfee.sum a aid appk ik iv n)))))
+
+;@module sendrec
+; recorders of wallet.swapToSend calls (contract clause `records`)
+;@ghost snd.err Iface
+;@ghost snd.calls Int
